@@ -225,7 +225,8 @@ def oracle(ctx, enc_inputs, dec_inputs, ints):
         return v
     fixed = [{"alg": "HS256", "kid": "[" * 70}, {"alg": "HS256", "kid": "{" * 500}, {"alg": "HS256", "note": "{[" * 33}, {"kid": "]" * 100 + "}" * 100},
              {"kid": "[" * 5000 + "]" * 10}, {"kid": '"' * 50}, {"kid": "\\" * 50}, {"kid": ":," * 100}, {"[[[[": "]]]]", "{{{{": 1}, {"kid": '{"alg":"none"}'},
-             {"kid": '\\"[' * 80}, {"kid": "x" * 100000}, {"kid": "é[" * 3000}, {f"m{i}": i for i in range(500)}, {"crit": ["[" * 65] * 65},
+             {"kid": '\\"[' * 80}, {"alg": "HS256", "kid": "Ame\u0301lie-2024"}, {"kid": "\u212bngstro\u0308m", "cafe\u0301": 1}, {"jwk": {"kty": "oct", "kid": "n\u0303"}},
+             {"kid": "\ufb01 \u00bd \u2460 \uff21"}, {"crit": ["e\u0301"], "e\u0301": "\u1e9b\u0323"}, {"kid": "x" * 100000}, {"kid": "é[" * 3000}, {f"m{i}": i for i in range(500)}, {"crit": ["[" * 65] * 65},
              {"alg": "HS256", "x": nest(30, "[" * 40, "mixed")}, {"x": nest(64, 1, "list")}, {"x": nest(65, 1, "dict")}, {"x": nest(100, "leaf", "mixed")},
              {"x": nest(300, None, "list")}, {"x": [nest(20, "{", "dict")] * 20}]
     for i in range(len(fixed) + (300 if ctx.tier == "quick" else 5000)):
